@@ -13,6 +13,25 @@ type errGroup struct {
 	tasks []Value
 }
 
+func (e *Exec) groupOf(v Value) *errGroup {
+	p := v.(PtrV)
+	if oo, ok := p.Opq.(*OpaqueObj); ok {
+		return oo.Data.(*errGroup)
+	}
+	if p.C == nil {
+		panic(&GoPanic{Msg: "nil *errgroup.Group"})
+	}
+	if e.groups == nil {
+		e.groups = map[*Cell]*errGroup{}
+	}
+	g, ok := e.groups[p.C]
+	if !ok {
+		g = &errGroup{}
+		e.groups[p.C] = g
+	}
+	return g
+}
+
 func init() {
 	I := intrinsics
 	const EG = "golang.org/x/sync/errgroup"
@@ -20,12 +39,12 @@ func init() {
 		return TupleV{V: []Value{PtrV{Opq: &OpaqueObj{Kind: "errgroup", Data: &errGroup{}}}, a[0]}}
 	}
 	I["(*"+EG+".Group).Go"] = func(e *Exec, fn *ssa.Function, a []Value) Value {
-		g := a[0].(PtrV).Opq.(*OpaqueObj).Data.(*errGroup)
+		g := e.groupOf(a[0])
 		g.tasks = append(g.tasks, a[1])
 		return nil
 	}
 	I["(*"+EG+".Group).Wait"] = func(e *Exec, fn *ssa.Function, a []Value) Value {
-		g := a[0].(PtrV).Opq.(*OpaqueObj).Data.(*errGroup)
+		g := e.groupOf(a[0])
 		var first Value = IfaceV{}
 		saved := e.accesses
 		e.accesses = nil
